@@ -345,6 +345,10 @@ func (w *codeArea) handleKeyEvent(key ui.Key) bool {
 	}
 
 	if w.Bindings.Handle(w, term.KeyEvent(key)) {
+		// A key binding is the use of another editing functionality, so it
+		// interrupts consecutive typing even if it leaves the buffer (or
+		// restores it to) exactly as it was after the last insert.
+		w.resetInserts()
 		return true
 	}
 
